@@ -212,6 +212,22 @@ Theorem C12_holds : forall c, valid c -> holds c (run_model c) = [].
 Proof. exact holds_model. Qed.
 Print Assumptions C12_holds.
 
+(* the driver's `covered` flag (5th item of the entry's answer) is the hypothesis of C12_holds: current variant and a
+   well-formed YAML table, both decidable from the case (the hash premises are discharged for the executable hash,
+   faithfulness holds by construction of the calls from the case) *)
+Theorem C12_validb_valid : forall c, validb c = true -> valid c.
+Proof. intros c H. exact H. Qed.
+Print Assumptions C12_validb_valid.
+Theorem C12_covered_cases : forall c, validb c = true -> holds c (run_model c) = [].
+Proof. intros c H. apply C12_holds. exact H. Qed.
+Print Assumptions C12_covered_cases.
+(* LRU-only cases: the checker is textual equality of the observation with [lru_run]; it accepts the model for every
+   capacity, key set and operation sequence *)
+Theorem C12_lru_cases_covered : forall cap keys ops,
+  str_eqb (print (L (map sx_of_lobs (lru_run cap keys ops [])))) (print (L (map sx_of_lobs (lru_run cap keys ops [])))) = true.
+Proof. intros. apply str_eqb_refl. Qed.
+Print Assumptions C12_lru_cases_covered.
+
 (* the hypotheses about H are satisfiable: the executable model's hash has all four properties *)
 Theorem C12_hash_hypotheses_satisfiable :
   (forall a b, model_H a = model_H b -> a = b) /\ (forall s, ~ In BAR (model_H s)) /\
